@@ -9,6 +9,7 @@ sleep / timer / Lock of those modules are virtual.  Oracle over the recorded his
 """
 from __future__ import annotations
 
+import os
 import gc
 import hashlib
 import sys
@@ -42,7 +43,7 @@ ASSUMPTIONS = [
     "socket keys are not reused within a run (the hub keeps undelivered messages per key by design)",
 ]
 PROBES = ["reconnect", "late-finaliser", "two-in-flight", "send-races-disconnect", "nonblocking-recv-empty", "nonblocking-recv-got", "callback-delivery",
-          "structured", "silent", "broadcast", "three-endpoints", "two-socket-ids", "connection-error-after-disconnect",
+          "structured", "silent", "broadcast", "broadcast-poll", "three-endpoints", "two-socket-ids", "connection-error-after-disconnect",
           "recv-timeout", "lock-contended", "stalled-thread", "late-starter"]
 
 _mods: Dict[str, Any] = {}
@@ -60,7 +61,7 @@ def _load():
     return _mods
 
 
-def gen_scenario(ch: Choices, calm: bool, no_cb_reconnect: bool = False, tier: str = "quick") -> Dict[str, Any]:
+def gen_scenario(ch: Choices, calm: bool, no_cb_reconnect: bool = False, tier: str = "quick", avoid: Any = ()) -> Dict[str, Any]:
     deep = (not calm) and tier == "thorough" and ch.flag(1, 2, "deep")   # deeper bounds in half of the thorough runs
     n_ep = 2 if calm else 2 + ch.draw(2, "nep")
     names = ["a", "b", "c"][:n_ep]
@@ -84,6 +85,12 @@ def gen_scenario(ch: Choices, calm: bool, no_cb_reconnect: bool = False, tier: s
                 if pending[x] and ch.flag(1, 2, "brecv"):
                     out.append(("brecv", x))
                     pending[x] -= 1
+        # non-blocking receives come after an endpoint's other operations: a poll may take any message ever sent to its
+        # endpoint (threads are not bound to the script order), so one placed earlier could starve a blocking receive
+        if "broadcast-poll" not in avoid:
+            for x in names:
+                for _ in range(ch.draw(3, "npoll")):
+                    out.append(("bpoll", x))
         script = out
         return {"names": names, "broadcast": True, "script": script, "chans": [], "callback": {}}
     pairs = [(names[i], names[j]) for i in range(n_ep) for j in range(i + 1, n_ep)]
@@ -141,11 +148,11 @@ def run(ch: Choices, opts: Dict[str, Any]) -> Dict[str, Any]:
     sh, ts, bc, tbc, SM = m["sh"], m["ts"], m["bc"], m["tbc"], m["SM"]
     trace = Trace()
     calm = ch.flag(1, 10, "calm")
-    sc = gen_scenario(ch, calm, no_cb_reconnect="reconnect-with-callbacks" in opts.get("avoid", ()), tier=opts.get("tier", "quick"))
+    sc = gen_scenario(ch, calm, no_cb_reconnect="reconnect-with-callbacks" in opts.get("avoid", ()), tier=opts.get("tier", "quick"), avoid=opts.get("avoid", ()))
     names = sc["names"]
     sw = (1, 1) if calm else ch.pick([(1, 2), (1, 6), (1, 20)])
     files = [sh.__file__, ts.__file__, bc.__file__]
-    sched = ThreadSched(ch, trace, files, switch_num=sw[0], switch_den=sw[1], max_points=25000)
+    sched = ThreadSched(ch, trace, files, switch_num=sw[0], switch_den=sw[1], max_points=int(os.environ.get("C18_MAX_POINTS", "25000")))
     faults: Dict[str, int] = {}
     probes: Dict[str, int] = {}
 
@@ -247,6 +254,15 @@ def run(ch: Choices, opts: Dict[str, Any]) -> Dict[str, Any]:
                         try:
                             chan.send(p)
                             finish(e, "ok")
+                        except Exception as x:  # noqa: BLE001
+                            finish(e, exc=type(x).__name__)
+                    elif ev[0] == "bpoll":
+                        e = record(me, ("bpoll",))
+                        try:
+                            r = chan.recv(block=False)
+                            finish(e, r)
+                        except RuntimeError:
+                            finish(e, "empty")
                         except Exception as x:  # noqa: BLE001
                             finish(e, exc=type(x).__name__)
                     else:
@@ -392,7 +408,22 @@ def run(ch: Choices, opts: Dict[str, Any]) -> Dict[str, Any]:
         if sc["broadcast"]:
             sends = [e for e in hist if e["op"][0] == "bsend" and e["exc"] is None]
             for x in names:
-                got = [e["out"] for e in hist if e["thread"] == x and e["op"][0] == "brecv" and e["exc"] is None]
+                got = [e["out"] for e in hist if e["thread"] == x and e["exc"] is None
+                       and (e["op"][0] == "brecv" or (e["op"][0] == "bpoll" and e["out"] != "empty"))]
+                # a non-blocking receive may say "nothing there" only if that can be true: not while a message whose
+                # send had already returned is still unreceived
+                n_recv = 0
+                for e in hist:
+                    if e["thread"] != x or e["exc"] is not None:
+                        continue
+                    if e["op"][0] == "brecv" or (e["op"][0] == "bpoll" and e["out"] != "empty"):
+                        n_recv += 1
+                    elif e["op"][0] == "bpoll":
+                        surely_sent = sum(1 for s2 in sends if s2["thread"] != x and s2["ret"] is not None and s2["ret"] < e["invoke"])
+                        bump(probes, "broadcast-poll")
+                        if surely_sent > n_recv:
+                            raise Violation("empty", "empty|broadcast-poll-reports-nothing-while-a-message-waits",
+                                            {"receiver": x, "poll": e, "sent_before": surely_sent, "received_before": n_recv, **detail})
                 for s_name in names:
                     if s_name == x:
                         continue
